@@ -3,9 +3,21 @@
 // avail_spec.rs (op_resolve_ff, avail_pick, avail_post), lsp_backend.rs.
 
 // ---- callHierarchy/outgoingCalls ---------------------------------------------------------------------------
-/// ASSUMED (Backend::find_parameter_ranges, string search in the cached text of the definition line): where the
-/// parameter `name` is written on line `line` of `file`; None: no cached text / no such line / name not found
-pub uninterp spec fn param_ranges(cache: Map<PV, String>, file: PV, line: usize, name: Seq<char>) -> Option<Seq<Range>>;
+/// what Backend::find_parameter_ranges computes: where the parameter `name` is written on (1-based) line `line` of
+/// the CACHED text of `file`: the FIRST occurrence of the name AS A SUBSTRING of that line (byte columns); None: no
+/// cached text / no such line / not found
+pub open spec fn param_ranges(cache: Map<PV, String>, file: PV, line: usize, name: Seq<char>) -> Option<Seq<Range>> {
+    if !cache.contains_key(file) { None } else {
+        let ls = text_lines(Some(cache[file]@));
+        let idx = if line == 0 { 0int } else { line - 1 };
+        if idx >= ls.len() { None } else {
+            match str_find(ls[idx], name) {
+                None => None,
+                Some(s) => Some(seq![mk_range(lsp_line(line), s as u32, lsp_line(line), (s + utf8_len(name)) as u32)]),
+            }
+        }
+    }
+}
 pub ghost struct OutCallV { pub to: ItemV, pub from_ranges: Seq<Range> }
 pub open spec fn out_call_v(c: CallHierarchyOutgoingCall) -> OutCallV { OutCallV { to: item_v(c.to), from_ranges: c.from_ranges@ } }
 pub open spec fn out_calls_v(s: Seq<CallHierarchyOutgoingCall>) -> Seq<OutCallV> { s.map_values(|c: CallHierarchyOutgoingCall| out_call_v(c)) }
@@ -44,7 +56,8 @@ pub open spec fn deps_fit(v: NavV, p: PV, deps: Seq<Seq<char>>) -> bool {
     forall|i: int| 0 <= i < deps.len() ==> def_fits(dep_target(v, p, #[trigger] deps[i]))
 }
 pub open spec fn out_fits(v: NavV, name: Seq<char>, uri: Uri) -> bool {
-    item_def(v, name, uri) is Some ==> deps_fit(v, uri_path(uri)->0, (item_def(v, name, uri)->0).dependencies)
+    item_def(v, name, uri) is Some ==> line_fits((item_def(v, name, uri)->0).line)
+        && deps_fit(v, uri_path(uri)->0, (item_def(v, name, uri)->0).dependencies)
 }
 pub open spec fn opt_out_calls_view(r: jsonrpc::Result<Option<Vec<CallHierarchyOutgoingCall>>>) -> Option<Seq<OutCallV>> {
     match r { Ok(Some(v)) => Some(out_calls_v(v@)), _ => None }
